@@ -1035,6 +1035,8 @@ impl Check for C08 {
                     "lbl: function labelled() { return a + b; }",
                     "var yi\\u0065ld = a + b;",
                     "for (var i9 = 0 in {}) { y += i9; }",
+                    "var let = [a]; (let[0]) += b; (let[0]) += b + a;",
+                    "var yield = {p: a}; (yield.p) += b;",
                 ];
                 let odd = ODD[((sel4 >> 4) as usize) % ODD.len()];
                 let src = v["src"].as_str().unwrap_or("").to_string();
